@@ -138,7 +138,22 @@ func (r *Refresher) Refresh(namespace string, d core.Digest, hooks ...PostHook) 
 
 func (r *Refresher) download(client backend.Client, namespace string, d core.Digest, size uint64, pieceLength int64) error {
 	name := d.Hex()
-	return r.cas.WriteBlobToCacheWithMetaInfo(name, size, func(w store.FileReadWriter) error {
+	if err := r.cas.WriteBlobToCacheWithMetaInfo(name, size, func(w store.FileReadWriter) error {
 		return client.Download(namespace, name, w)
-	}, pieceLength)
+	}, pieceLength); err != nil {
+		return err
+	}
+	// pieceLength was selected for the size reported by the backend's Stat. If the
+	// blob has a different length, no metainfo was written for it: generate it with
+	// the piece length configured for the blob's actual size.
+	fi, err := r.cas.GetCacheFileStat(name)
+	if err != nil {
+		return fmt.Errorf("stat cache file: %s", err)
+	}
+	if uint64(fi.Size()) != size {
+		if err := r.metaInfoGenerator.Generate(d); err != nil {
+			return fmt.Errorf("generate metainfo: %s", err)
+		}
+	}
+	return nil
 }
